@@ -109,6 +109,12 @@ def gen_inputs(ctx):
             legal = (v in okset) if okset else (lo <= v <= hi)
             if not legal and (not q or v in alias or rng.random() < 0.5):
                 out.append(("Bip85", {"master": m, "app": app, "p": v, "ix": ix(rng.choice([0, 1]))}, (app + "-far-out", v in alias, v < 0)))
+    # indexes that are numbers but not integers (i + 1/2 as float / Decimal / Fraction): refused, not rounded
+    for app, p_ in (("mnemonic", 12), ("wif", 0), ("xprv", 0), ("hex", 32), ("pwd", 21)):
+        for i_, ty in ((1, "float"), (0, "float"), (2 ** 31 - 1, "float"), (2, "decimal"), (7, "fraction"), (-1, "float")):
+            d = ix(abs(i_))
+            d.update(neg=i_ < 0, frac=True, type=ty)
+            out.append(("Bip85", {"master": m, "app": app, "p": p_, "ix": d}, ("non-integral-index", app, ty)))
     # out-of-range indexes for every application, incl. negative ones
     for i in (-1, -2, -(2 ** 31), -(2 ** 31) - 1, 2 ** 31, 2 ** 31 + 1, 2 ** 32 - 1, 2 ** 32, 2 ** 40):
         for app, p in (("mnemonic", 12), ("wif", 0), ("xprv", 0), ("hex", 32), ("pwd", 21)):
